@@ -34,9 +34,10 @@ func (o Op) String() string {
 
 // Scenario is a history over small key and value universes.
 type Scenario struct {
-	UK  int  `json:"keys"`
-	UV  int  `json:"values"`
-	Ops []Op `json:"ops"`
+	UK      int  `json:"keys"`
+	Strings bool `json:"strings,omitempty"` // Bimap[string, struct] instead of Bimap[int,int]
+	UV      int  `json:"values"`
+	Ops     []Op `json:"ops"`
 }
 
 // H is the harness.
@@ -65,7 +66,7 @@ func (H) Describe(sc any) string {
 
 // Generate implements core.Harness.
 func (H) Generate(r *simrt.Rand, tier string) any {
-	s := &Scenario{UK: 3 + r.Intn(2), UV: 3 + r.Intn(2)}
+	s := &Scenario{UK: 3 + r.Intn(2), UV: 3 + r.Intn(2), Strings: r.Intn(4) == 0}
 	if r.Intn(6) == 0 {
 		s.UK, s.UV = 3+r.Intn(14), 3+r.Intn(14)
 	}
@@ -100,7 +101,7 @@ func (H) Generate(r *simrt.Rand, tier string) any {
 func (H) Shrink(sc any) []any {
 	s := sc.(*Scenario)
 	var out []any
-	mk := func(ops []Op) *Scenario { return &Scenario{UK: s.UK, UV: s.UV, Ops: ops} }
+	mk := func(ops []Op) *Scenario { return &Scenario{UK: s.UK, UV: s.UV, Strings: s.Strings, Ops: ops} }
 	n := len(s.Ops)
 	if n > 2 {
 		out = append(out, mk(append([]Op(nil), s.Ops[:n/2]...)), mk(append([]Op(nil), s.Ops[n/2:]...)))
@@ -114,8 +115,70 @@ func (H) Shrink(sc any) []any {
 	return out
 }
 
+// bimap is the Bimap under test behind int ids (two type instantiations).
+type bimap interface {
+	Len() int
+	Add(k, v int)
+	RemoveForward(k int)
+	RemoveReverse(v int)
+	Range(f func(k, v int) bool)
+	ContainsForward(k int) bool
+	GetForward(k int) (int, bool)
+	ContainsReverse(v int) bool
+	GetReverse(v int) (int, bool)
+	Clear()
+	Clone() bimap
+}
+
+type intBM struct{ b maps.Bimap[int, int] }
+
+func (x *intBM) Len() int                     { return x.b.Len() }
+func (x *intBM) Add(k, v int)                 { x.b.Add(k, v) }
+func (x *intBM) RemoveForward(k int)          { x.b.RemoveForward(k) }
+func (x *intBM) RemoveReverse(v int)          { x.b.RemoveReverse(v) }
+func (x *intBM) Range(f func(k, v int) bool)  { x.b.Range(f) }
+func (x *intBM) ContainsForward(k int) bool   { return x.b.ContainsForward(k) }
+func (x *intBM) GetForward(k int) (int, bool) { return x.b.GetForward(k) }
+func (x *intBM) ContainsReverse(v int) bool   { return x.b.ContainsReverse(v) }
+func (x *intBM) GetReverse(v int) (int, bool) { return x.b.GetReverse(v) }
+func (x *intBM) Clear()                       { x.b.Clear() }
+func (x *intBM) Clone() bimap                 { return &intBM{x.b.Clone()} }
+
+// strBM: string keys ("" is key 0) and struct values.
+type sv struct{ A, B int }
+type strBM struct{ b maps.Bimap[string, sv] }
+
+func ks(k int) string {
+	if k == 0 {
+		return ""
+	}
+	return fmt.Sprint("k", k)
+}
+func sk(s string) int {
+	if s == "" {
+		return 0
+	}
+	var k int
+	fmt.Sscanf(s, "k%d", &k)
+	return k
+}
+func vs(v int) sv                    { return sv{v, v * 2} }
+func (x *strBM) Len() int            { return x.b.Len() }
+func (x *strBM) Add(k, v int)        { x.b.Add(ks(k), vs(v)) }
+func (x *strBM) RemoveForward(k int) { x.b.RemoveForward(ks(k)) }
+func (x *strBM) RemoveReverse(v int) { x.b.RemoveReverse(vs(v)) }
+func (x *strBM) Range(f func(k, v int) bool) {
+	x.b.Range(func(k string, v sv) bool { return f(sk(k), v.A) })
+}
+func (x *strBM) ContainsForward(k int) bool   { return x.b.ContainsForward(ks(k)) }
+func (x *strBM) GetForward(k int) (int, bool) { v, ok := x.b.GetForward(ks(k)); return v.A, ok }
+func (x *strBM) ContainsReverse(v int) bool   { return x.b.ContainsReverse(vs(v)) }
+func (x *strBM) GetReverse(v int) (int, bool) { k, ok := x.b.GetReverse(vs(v)); return sk(k), ok }
+func (x *strBM) Clear()                       { x.b.Clear() }
+func (x *strBM) Clone() bimap                 { return &strBM{x.b.Clone()} }
+
 type live struct {
-	bm  *maps.Bimap[int, int]
+	bm  bimap
 	fwd map[int]int
 	rev map[int]int
 }
@@ -127,7 +190,11 @@ func (H) Execute(scAny any, cfg simrt.Config, st *core.Stats) (*simrt.Outcome, *
 	var h uint64
 	changes := 0
 	body := func() {
-		ms := []*live{{bm: &maps.Bimap[int, int]{}, fwd: map[int]int{}, rev: map[int]int{}}} // starts from the zero value
+		var first bimap = &intBM{} // starts from the zero value
+		if sc.Strings {
+			first = &strBM{}
+		}
+		ms := []*live{{bm: first, fwd: map[int]int{}, rev: map[int]int{}}}
 		for i, o := range sc.Ops {
 			simrt.Yield()
 			h = core.HashInts(h, int(o.K[0])+256*int(o.K[len(o.K)-1]), o.A, o.B, o.M%len(ms))
@@ -169,8 +236,7 @@ func (H) Execute(scAny any, cfg simrt.Config, st *core.Stats) (*simrt.Outcome, *
 				changes++
 			case "clone":
 				if len(ms) < 3 {
-					c := m.bm.Clone()
-					nl := &live{bm: &c, fwd: map[int]int{}, rev: map[int]int{}}
+					nl := &live{bm: m.bm.Clone(), fwd: map[int]int{}, rev: map[int]int{}}
 					for a, b := range m.fwd {
 						nl.fwd[a] = b
 						nl.rev[b] = a
